@@ -109,6 +109,14 @@ class Scoping(object):
                     self.flags.add("inner-raise")
                 raise e
             self.ops.append(op + ("(" if op not in ("msg", "task", "make") else ""))
+            if self.ctx.shard.get("interrupt") and op in ("msg", "task", "make"):
+                try:
+                    self.simple_op(op)
+                except KeyboardInterrupt:
+                    self.ops.append("^C")
+                    self.flags.add("interrupted")
+                    self.expect("after a KeyboardInterrupt came out of a logging call")
+                continue
             if op == "make":
                 # create an action here (it becomes a child of the current one) but enter it later
                 a = self.new_action("make")
@@ -136,7 +144,21 @@ class Scoping(object):
                 t.finish()
                 self.expect("after finishing the un-entered task")
             else:
-                self.scoped(op, depth + 1)
+                try:
+                    self.scoped(op, depth + 1)
+                except KeyboardInterrupt:
+                    # arrived while the action was being started (before entry) or finished explicitly
+                    self.ops.append("^C")
+                    self.flags.add("interrupted")
+                    self.expect("after a KeyboardInterrupt came out of starting/finishing an action")
+
+    def simple_op(self, op):
+        if op == "msg":
+            log_message("t:m", i=self.budget)
+        elif op == "task":
+            start_task(action_type="t:task").finish()
+        else:
+            self.pre.append(start_action(action_type="t:made"))
 
     def scoped(self, op, depth):
         ctx = self.ctx
@@ -196,6 +218,15 @@ class Scoping(object):
             if self.in_flight is None or e is not self.in_flight[0]:
                 raise
             err = e
+        except KeyboardInterrupt:
+            # arrived during a logging call made on entry or exit of the block
+            self.ops.append("^C")
+            self.flags.add("interrupted")
+            got = current_action()
+            ctx.check(got is before, "a KeyboardInterrupt during %s(%s) left current_action() at %r, expected what it was before entry: %r (program %s)", op, "entry/exit logging", got, before, " ".join(self.ops))
+            if self.in_flight is not None:
+                self.in_flight = None
+            return
         got = current_action()
         ctx.check(got is before, "after leaving %s(%s) by %s: current_action() is %r, expected what it was before entry: %r (program %s)", op, a._identification["action_type"], "exception" if err else "normal exit", got, before, " ".join(self.ops))
         if fresh and op in ("ctx", "run"):
@@ -221,10 +252,25 @@ class Scoping(object):
             self.stack.pop()
 
 
+class Interrupting(object):
+    """A destination on which a KeyboardInterrupt (Ctrl-C) arrives during one solver-chosen call."""
+
+    def __init__(self, ctx, received, enabled):
+        self.ctx = ctx
+        self.received = received
+        self.left = 1 if enabled else 0
+
+    def __call__(self, m):
+        self.received.append(m)
+        if self.left and self.ctx.flag("KeyboardInterrupt during this delivery"):
+            self.left = 0
+            raise KeyboardInterrupt()
+
+
 def body_E1(ctx):
     sh = ctx.shard
     received = []
-    _output.Logger._destinations.add(received.append)
+    _output.Logger._destinations.add(Interrupting(ctx, received, sh.get("interrupt")))
     sc = Scoping(ctx, received, sh.get("N", 5), sh.get("D", 3))
     sc.block(0)
     ctx.check(current_action() is None, "after the whole program current_action() is %r", current_action())
@@ -243,7 +289,7 @@ def E1() -> bool:
 
 
 def _shards(tier):
-    cfgs = [{"N": 4, "D": 3, "ops": "core"}, {"N": 3, "D": 3, "ops": "all"}] if tier == "quick" else [{"N": 5, "D": 4, "ops": "core"}, {"N": 4, "D": 3, "ops": "all"}]
+    cfgs = [{"N": 4, "D": 3, "ops": "core"}, {"N": 3, "D": 3, "ops": "all"}, {"N": 3, "D": 3, "ops": "core", "interrupt": 1}] if tier == "quick" else [{"N": 5, "D": 4, "ops": "core"}, {"N": 4, "D": 3, "ops": "all"}, {"N": 4, "D": 3, "ops": "core", "interrupt": 1}]
     out = []
     for s in cfgs:
         out += [dict(s, prefix=p) for p in enumerate_prefixes(body_E1, "X", {}, s, 2 if tier == "quick" else 3)]
@@ -261,6 +307,6 @@ OBLIGATIONS = [
         shards=_shards,
         twin=[{"N": 4, "D": 3, "ops": "core", "twin_label": "inner-raise"}],
         timeout={"quick": 100, "thorough": 1200},
-        bounds={"quick": "<= 4 ops with the core op set (no pre-created / finished actions) and <= 3 ops with all ops, depth <= 3; ops: with / context() / run() on a new action, with/context() on an action created earlier under another current action, context()/run() of an action that has already finished, context()/run() re-entering any enclosing action, generator body closed early, start_task, log_message, exit, raise caught j levels out", "thorough": "<= 5 ops (core) / <= 4 ops (all), depth <= 4"},
+        bounds={"quick": "<= 3 ops (core) with a KeyboardInterrupt arriving inside one solver-chosen message delivery; <= 4 ops with the core op set (no pre-created / finished actions) and <= 3 ops with all ops, depth <= 3; ops: with / context() / run() on a new action, with/context() on an action created earlier under another current action, context()/run() of an action that has already finished, context()/run() re-entering any enclosing action, generator body closed early, start_task, log_message, exit, raise caught j levels out", "thorough": "<= 5 ops (core) / <= 4 ops (all), depth <= 4"},
     ),
 ]
